@@ -61,6 +61,45 @@ PROPS = {
         "trusted_base": ["harness/src/s_limits.rs", "hook H1 (fake clock, biscuit-auth/src/time.rs under cfg biscuit_verif)", "tools/props.py oracle_limits"],
         "assumptions": ["time: only what passes through the fake clock is observed"],
     },
+    "C01": {
+        "module": "BiscuitModel.Props.C01",
+        "streams": ["chain"],
+        "level_text": "Lean 4 theorems over an abstract signature scheme: verify_iff_chain (acceptance under a root key is exactly: structural checks, authority signature under the root over the authority payload, every block signed by the previous next key over a payload containing its bytes, next key, algorithm, version and - version 1 - the actual previous signature and the external signature, external signatures over bytes + previous signature, proof = secret of the last next key or seal over last block + key + signature), and under an explicit unforgeability hypothesis: wrong_root_rejected, accepted_authority_is_honest, accepted_blocks_are_honest (every signature of an accepted token under a protected key is one an honest party made over exactly that payload), accepted_seal_is_honest, truncation_needs_earlier_secret; blockV1_injective / blockV0_injective / seal_payload_injective (the payloads determine every field, for equal lengths of the variable-length fields). The payload layouts in the theorems are regenerated from crypto/mod.rs on every run. Tie: tokens built through the API (both algorithms for root, block and external keys, signature versions 0 and 1, third-party blocks, sealed or not) and EVERY single structured mutation of the decoded wire message (each field of each block, swaps, drops, duplicates, splices between two tokens, proof manipulations, root key id, other root key, ECDSA (r, n-s)) are presented to Biscuit::from, from_base64 and UnverifiedBiscuit::verify; the compiled model predicts accept/reject with the ideal scheme whose valid signatures are exactly those of the honest tokens over the model-computed payloads.",
+        "level_note": "Cryptographic assumptions (unforgeability, signature lengths) are hypotheses of the theorems, not theorems. Open: payload injectivity without the equal-length hypothesis (needs the key/signature length facts of DESIGN Appendix A.3). Known finding recorded: secp256r1 signatures (r, n-s) are accepted.",
+        "rule": "chain stream: seeded histories (1-4 blocks, two independent tokens per case for splicing); every stage presented as is and under another root; all single structured mutations of the last two stages; non-trivial = a mutation case or an honest token with at least one appended block; distinct = distinct case JSON",
+        "trusted_base": ["tools/extract.py (payload layouts, schema field numbers regenerated from crypto/mod.rs and schema.proto)", "harness/src/s_chain.rs (history generator, structured mutations, prost decoding of the wire message)", "ed25519-dalek / p256 verifiers used independently of biscuit-auth to check real signatures over the model's payload bytes", "lean/Codec.lean, lean/Driver.lean"],
+        "assumptions": ["unforgeability of ed25519 / ECDSA P-256 for keys whose secret the adversary does not hold", "prost decodes the mutated wire message as the library does"],
+        "open_obligations": ["payload_v1_injective without the equal-length hypothesis"],
+    },
+    "C02": {
+        "module": "BiscuitModel.Props.C02",
+        "streams": ["chain"],
+        "level_text": "Lean 4 theorems: payloads_eq_spec and the gen_*_eq_spec family (each of the seven payload layouts regenerated from crypto/mod.rs equals the layout written from the Biscuit specification), unknown_signature_version_refused, new_token_verifies / append_verifies / seal_verifies and built_tokens_verify (every token produced by ANY history of build, append, append-third-party and seal operations, with any algorithms, verifies under the issuing root key - induction over the history, assuming only that a signature made with a secret verifies under its public key), the signature-version rule (sigVersion_third_party, _datalog33, _non_ed25519, _ed25519, _never_back, _le_one). Tie: every stage of every generated history must be accepted by Biscuit::from, from_base64 and UnverifiedBiscuit::from+verify, expose the same revocation ids / external keys / root key id / block count as the model, re-serialize to identical bytes, equal the model's own protobuf encoding byte for byte, and every signature in it must verify - with ed25519-dalek / p256 used directly, not through biscuit-auth - over the payload bytes the Lean model computes.",
+        "level_note": "Scheme correctness is a hypothesis. The protobuf decoder is not modelled (encoder only); decode(encode) = id is listed as open.",
+        "rule": "chain stream (see C01); for C02 the honest stages are the cases that matter: non-trivial = honest stage with at least one appended block",
+        "trusted_base": ["tools/extract.py (payload layouts, schema field numbers regenerated from crypto/mod.rs and schema.proto)", "harness/src/s_chain.rs (history generator, structured mutations, prost decoding of the wire message)", "ed25519-dalek / p256 verifiers used independently of biscuit-auth to check real signatures over the model's payload bytes", "lean/Codec.lean, lean/Driver.lean"],
+        "assumptions": ["EdDSA / ECDSA correctness"],
+        "open_obligations": ["wire_round_trip: decode (encode c) = some c for the container messages"],
+    },
+    "C08": {
+        "module": "BiscuitModel.Props.C08",
+        "streams": ["chain", "authz"],
+        "level_text": "Lean 4 theorems: sealed_is_final (every append, third-party append, third-party request and re-seal on a sealed container is refused, whatever its arguments), sealed_history_refused, seal_is_sealed, seal_preserves (authority, blocks, root key id, revocation identifiers and external keys unchanged - hence the same authorization result, since C04's authorize reads only the blocks), seal_verifies, seal_binds_last_block (an accepted sealed token's final signature is a signature by the last next key over the last block's bytes, next key and signature) with seal_payload_injective. Tie: chain stream (sealed stages, all structured mutations of sealed tokens incl. seal flip/extend/replace, block add/remove/alter) and authz stream (every case is also authorized after seal(): outcome must be identical).",
+        "level_note": "Cryptographic assumptions are hypotheses. Operations after seal on the implementation side are exercised by the chain stream's seal stages and by the authz stream; a dedicated operations-after-seal sweep through UnverifiedBiscuit is listed as open.",
+        "rule": "chain stream (see C01) restricted in spirit to sealed stages; authz stream compares authorize on token, reloaded token and sealed token",
+        "trusted_base": ["tools/extract.py (payload layouts, schema field numbers regenerated from crypto/mod.rs and schema.proto)", "harness/src/s_chain.rs (history generator, structured mutations, prost decoding of the wire message)", "ed25519-dalek / p256 verifiers used independently of biscuit-auth to check real signatures over the model's payload bytes", "lean/Codec.lean, lean/Driver.lean"],
+        "assumptions": ["unforgeability for the last next key"],
+        "open_obligations": ["implementation sweep of every operation after seal through both APIs, before and after a round trip"],
+    },
+    "C15": {
+        "module": "BiscuitModel.Props.C15",
+        "streams": ["chain"],
+        "level_text": "Lean 4 theorems: revocation_ids_are_signatures, op_ids_prefix and ids_prefix_stable (after any history of appends, third-party appends and a seal the identifier list has the previous list as a prefix), non_malleable_strict (with unique signatures - what ed25519 strict verification provides - two accepted tokens carrying the same signed content have the same identifiers, by induction along the chain), and ecdsa_last_id_witness (with a scheme that accepts two signatures per message the last identifier IS malleable: the full statement is false of the code for secp256r1). Tie: chain stream compares the identifiers of every accepted presentation (verified and unverified path, in memory vs reloaded) with the model, and includes the crafted (r, n-s) variant of every secp256r1 signature and trailing-byte variants of every signature.",
+        "level_note": "Uniqueness across independently minted tokens rests on fresh next keys being in the signed payload (C01 injectivity) and on the scheme; not a separate theorem. Known finding: ECDSA malleability.",
+        "rule": "chain stream (see C01); non-trivial = accepted presentation with at least two blocks or a signature-level mutation",
+        "trusted_base": ["tools/extract.py (payload layouts, schema field numbers regenerated from crypto/mod.rs and schema.proto)", "harness/src/s_chain.rs (history generator, structured mutations, prost decoding of the wire message)", "ed25519-dalek / p256 verifiers used independently of biscuit-auth to check real signatures over the model's payload bytes", "lean/Codec.lean, lean/Driver.lean"],
+        "assumptions": ["unique signatures for ed25519 (strict verification)"],
+    },
 }
 
 
@@ -217,7 +256,48 @@ def cmp_limits(case, impl, model):
     return None
 
 
-COMPARATORS = {"limits": cmp_limits, "expr": cmp_default, "engine": cmp_engine, "authz": cmp_authz, "atten": cmp_atten, "determ": cmp_determ}
+def cmp_chain(case, impl, model):
+    if "driver_error" in model:
+        return "driver error: %s" % model["driver_error"]
+    if "panic" in impl:
+        return "implementation panicked: %s" % impl["panic"]
+    paths = (impl.get("accept"), impl.get("accept_unverified_then_verify"), impl.get("accept_base64"))
+    if len(set(paths)) != 1:
+        return "entry points disagree on acceptance: from=%s unverified+verify=%s base64=%s" % paths
+    if impl["accept"] != model["accept"]:
+        if impl["accept"]:
+            return "token accepted although not every signature is one an honest party made over that payload (mutation: %s)" % case.get("mutation")
+        return "token rejected although its chain is valid (mutation: %s; error %s)" % (case.get("mutation"), impl.get("error"))
+    if impl["accept"]:
+        for k in ("ids", "ext_keys", "block_count", "root_key_id"):
+            if impl.get(k) != model.get(k):
+                return "%s differs on an accepted token: impl %s model %s" % (k, json.dumps(impl.get(k))[:200], json.dumps(model.get(k))[:200])
+        if "ids_unverified_path" in impl and impl["ids_unverified_path"] != impl["ids"]:
+            return "revocation identifiers differ between the verified and the unverified path"
+    if case.get("mutation") == "none":
+        if impl.get("ids_in_memory") != impl.get("ids"):
+            return "revocation identifiers changed by a serialization round trip"
+        if not impl.get("reserialized_identical"):
+            return "re-serializing the deserialized token does not give identical bytes"
+        if impl.get("wire_bytes") != model.get("wire_bytes"):
+            return "bytes of to_vec() differ from the model's wire encoding"
+        post = impl.get("post", {})
+        if post.get("failed"):
+            return "signature does not verify over the payload layout of the model: %s" % post["failed"]
+        if post.get("checked", 0) == 0:
+            return "no signature was checked over the model's payloads"
+    return None
+
+
+POST = {"chain": "chainpost"}
+
+# which cases of a shared stream are in the scope of a property (others are run but not judged)
+FILTERS = {
+    ("C02", "chain"): lambda case: case.get("mutation") == "none",
+    ("C08", "chain"): lambda case: "seal" in (case["subject"].get("proof") or {}) and "ecdsa" not in case.get("mutation", ""),
+}
+
+COMPARATORS = {"chain": cmp_chain, "limits": cmp_limits, "expr": cmp_default, "engine": cmp_engine, "authz": cmp_authz, "atten": cmp_atten, "determ": cmp_determ}
 
 
 def nontrivial(stream, case, impl):
@@ -225,6 +305,8 @@ def nontrivial(stream, case, impl):
         return impl.get("err") != "InvalidStack"
     if stream == "authz":
         return impl.get("r") in ("ok", "nomatch", "unauth")
+    if stream == "chain":
+        return len(case["subject"]["blocks"]) >= 1 or case.get("mutation") != "none"
     if stream == "limits":
         return any(o.get("r", "").startswith("limit") for o in impl.get("calls", [])) or len(impl.get("calls", [])) > 1
     if stream == "determ":
@@ -348,7 +430,12 @@ def match_time_after_failed_run(k, d):
     return False
 
 
-MATCHERS = {"amb": match_amb, "time-after-failed-run": match_time_after_failed_run}
+def match_ecdsa_s(k, d):
+    """secp256r1 signatures are accepted in both forms (r, s) and (r, n - s)"""
+    return "ecdsa (r, n-s)" in str(d["case"].get("mutation", "")) and d["impl"].get("accept") is True and d["model"].get("accept") is False
+
+
+MATCHERS = {"ecdsa-s": match_ecdsa_s, "amb": match_amb, "time-after-failed-run": match_time_after_failed_run}
 
 
 # ---------------------------------------------------------------- shrinking
